@@ -94,21 +94,28 @@ SPECS = {
     },
 }
 
-# ---- CGMY (wave 6): cgmy.py's measure regenerated instead of hand-modelled.  Special functions are Section variables
-#   exp1 = scipy.special.exp1, Gamma = scipy.special.gamma, gammaincc / gammainc = the regularised incomplete gamma functions,
-#   quad_xx a b = scipy.integrate.quad(self._xx_levy_measure, a, b, points=points, limit=100)[0]  (the local `points` only feeds quad:
-#   it is erased to `tt`).  Private helpers that are called through `self.` become function arguments (h2inf, a2inf, inf2b, a2b) and the
-#   self-calls become `rec`; Model/CgmyGen.v ties the knots.  `0.0 ** negative` raises in Python and is Rpower 0 _ = 1 here: every theorem
-#   keeps the end points away from such calls; the option-valued model cgmy_x_neg_exec (F-C09-13) covers the raising case.
+# ---- CGMY (wave 6, corrected in wave 8 after audit 5a B1 / X-e): cgmy.py's measure regenerated instead of hand-modelled.
+#   Special functions are the projections of ONE record argument `sf : SpecialFns` (Model/PyPow.v): sf_exp1 = scipy.special.exp1,
+#   sf_Gamma = scipy.special.gamma, sf_gammaincc / sf_gammainc = the regularised upper / lower incomplete gamma functions,
+#   sf_quad_xx a b = scipy.integrate.quad(self._xx_levy_measure, a, b, points=points, limit=100)[0] (the local `points` only feeds quad:
+#   it is erased to `tt`).  No Section variables any more: a Section variable is positional after discharge, so swapping gammaincc for
+#   gammainc in the source left every proof compiling (X-e); with the record the NAME of the function is part of the generated term.
+#   Private helpers that are called through `self.` become function arguments (h2inf, a2inf, inf2b, a2b) and the
+#   self-calls become `rec`; Model/CgmyGen.v ties the knots.
+#   `x ** e` is translated by the plug-in to `pypow x e` (Model/PyPow.v): Python's value on a base >= 0, in particular 0.0 ** positive = 0.0
+#   (B1: py2coq's Rpower 0 e is 1, which made the generated first moment at an end point 0 differ from the code's value by 2/(1-y)...);
+#   `0.0 ** negative` raises in Python: pypow_raises, the R value is a placeholder and every theorem keeps the end points away from such
+#   calls; the option-valued model cgmy_x_neg_exec (F-C09-13) covers the raising case.  np.power(x_bar, .) in __call__ / _xx_levy_measure
+#   stays Rpower: at x_bar = 0 both `x < 0` and `x > 0` are false and the value of `den` / `factor` is not read.
 _CG_ATTRS = {"self.parameters.c": "c", "self.parameters.g": "g", "self.parameters.m": "m", "self.parameters.y": "y"}
 _CG_KWSIG = {"self.__integrate_h_to_inf": ["alpha", "h", "u"], "self.__integrate_h_to_inf_for_xx": ["alpha", "h", "u"]}
 _R3 = "R -> R -> R -> R"
 
 SPECS["GenC09Cgmy"] = {
     "file": "rpylib/model/levymodel/purejump/cgmy.py", "dom": "R", "consts": {"np.inf": "INF"}, "ext": "py2coq_c09",
-    "section": [("exp1", "R -> R"), ("Gamma", "R -> R"), ("gammaincc", "R -> R -> R"), ("gammainc", "R -> R -> R"), ("quad_xx", "R -> R -> R")],
-    "calls": {"scipy.special.exp1": "exp1", "scipy.special.gamma": "Gamma", "scipy.special.gammaincc": "gammaincc",
-              "scipy.special.gammainc": "gammainc", "np.power": "Rpower"},
+    "header": "From Coq Require Import ZArith Reals Bool List.\nFrom RV Require Import Base.RB Model.PyPow.\nOpen Scope R_scope.\n",
+    "calls": {"scipy.special.exp1": "(sf_exp1 sf)", "scipy.special.gamma": "(sf_Gamma sf)", "scipy.special.gammaincc": "(sf_gammaincc sf)",
+              "scipy.special.gammainc": "(sf_gammainc sf)", "np.power": "Rpower"},
     "kwsig": _CG_KWSIG,
     "funcs": [
         {"py": "_CGMYLevyMeasure.__call__", "coq": "cgmy_density", "pyargs": ["x"],
@@ -116,9 +123,9 @@ SPECS["GenC09Cgmy"] = {
         {"py": "_CGMYLevyMeasure._xx_levy_measure", "coq": "cgmy_xx_density", "pyargs": ["x"],
          "args": [("c", R), ("g", R), ("m", R), ("y", R), ("x", R)], "ret": R, "attrs": _CG_ATTRS},
         {"py": "_CGMYLevyMeasure.__integrate_h_to_inf", "coq": "cgmy_h_to_inf_F", "pyargs": ["alpha", "h", "u"],
-         "args": [("rec", _R3), ("alpha", R), ("h", R), ("u", R)], "ret": R, "calls": {"self.__integrate_h_to_inf": "rec"}},
+         "args": [("sf", "SpecialFns"), ("rec", _R3), ("alpha", R), ("h", R), ("u", R)], "ret": R, "calls": {"self.__integrate_h_to_inf": "rec"}},
         {"py": "_CGMYLevyMeasure.__integrate_h_to_inf_for_xx", "coq": "cgmy_h_to_inf_for_xx", "pyargs": ["alpha", "h", "u"],
-         "args": [("INF", R), ("alpha", R), ("h", R), ("u", R)], "ret": R, "join_live_only": True},
+         "args": [("sf", "SpecialFns"), ("INF", R), ("alpha", R), ("h", R), ("u", R)], "ret": R, "join_live_only": True},
         {"py": "_CGMYLevyMeasure.__integrate_levy_measure_a_to_inf", "coq": "cgmy_a_to_inf", "pyargs": ["a"],
          "args": [("h2inf", _R3), ("c", R), ("m", R), ("y", R), ("a", R)], "ret": R, "attrs": _CG_ATTRS,
          "calls": {"self.__integrate_h_to_inf": "h2inf"}},
@@ -136,10 +143,10 @@ SPECS["GenC09Cgmy"] = {
          "calls": {"self.integrate": "rec", "self.__integrate_levy_measure_a_to_b": "a2b", "self.__integrate_levy_measure_a_to_inf": "a2inf",
                    "self.__integrate_levy_measure_inf_to_b": "inf2b"}},
         {"py": "_CGMYLevyMeasure.integrate_against_x", "coq": "cgmy_integrate_x_F", "pyargs": ["a", "b"],
-         "args": [("rec", "R -> R -> R"), ("INF", R), ("c", R), ("g", R), ("m", R), ("y", R), ("a", R), ("b", R)], "ret": R, "attrs": _CG_ATTRS,
-         "calls": {"self.integrate_against_x": "rec", "self.__integrate_h_to_inf_for_xx": "(cgmy_h_to_inf_for_xx INF)"}},
+         "args": [("sf", "SpecialFns"), ("rec", "R -> R -> R"), ("INF", R), ("c", R), ("g", R), ("m", R), ("y", R), ("a", R), ("b", R)], "ret": R, "attrs": _CG_ATTRS,
+         "calls": {"self.integrate_against_x": "rec", "self.__integrate_h_to_inf_for_xx": "(cgmy_h_to_inf_for_xx sf INF)"}},
         {"py": "_CGMYLevyMeasure.integrate_against_xx", "coq": "cgmy_integrate_xx", "pyargs": ["a", "b"],
-         "args": [("c", R), ("g", R), ("m", R), ("y", R), ("a", R), ("b", R)], "ret": R, "attrs": _CG_ATTRS,
-         "subst": {"None": "tt", "[0]": "tt", "quad(self._xx_levy_measure, a, b, points=points, limit=100)[0]": "(quad_xx a b)"}},
+         "args": [("sf", "SpecialFns"), ("c", R), ("g", R), ("m", R), ("y", R), ("a", R), ("b", R)], "ret": R, "attrs": _CG_ATTRS,
+         "subst": {"None": "tt", "[0]": "tt", "quad(self._xx_levy_measure, a, b, points=points, limit=100)[0]": "(sf_quad_xx sf a b)"}},
     ],
 }
